@@ -17,7 +17,7 @@ def stage_spec(d):
             shutil.copy(os.path.join(SPEC, f), os.path.join(d, f))
 
 
-def run_tlc(d, module, cfg, env=None, workers=1, timeout=900, extra=(), heap="4g", deque=False):
+def run_tlc(d, module, cfg, env=None, workers=1, timeout=900, extra=(), heap="4g", deque=False, tag=""):
     """returns (returncode, stdout text, seconds)"""
     e = dict(os.environ)
     e.update(env or {})
@@ -25,7 +25,7 @@ def run_tlc(d, module, cfg, env=None, workers=1, timeout=900, extra=(), heap="4g
     if deque:
         opts += " -Dtlc2.tool.queue.IStateQueue=StateDeque"
     e["JAVA_TOOL_OPTIONS"] = opts
-    meta = os.path.join(d, "meta-" + module)
+    meta = os.path.join(d, "meta-" + module + tag)
     cmd = ["timeout", str(timeout), "java", "-cp", "/opt/veriftools/tla/tla2tools.jar:/opt/veriftools/tla/CommunityModules-deps.jar",
            "tlc2.TLC", "-workers", str(workers), "-metadir", meta, "-deadlock", "-config", cfg, module + ".tla"] + list(extra)
     t0 = time.time()
